@@ -61,6 +61,10 @@ def plan(tier, seed):
     out.append({'arrival': 'idle', 'how': 'TERM', 'second': 'TERM', 'seed': seed, 'idx': len(out)})
     out.append({'arrival': 'idle', 'how': 'quit', 'second': 'INT', 'seed': seed, 'idx': len(out)})
     out.append({'arrival': 'during-stop', 'how': 'INT', 'second': 'QUIT', 'seed': seed, 'idx': len(out)})
+    # a daemon that has nothing to do for a long time (check_delay one hour): the signal itself must wake it
+    out.append({'arrival': 'idle', 'how': 'TERM', 'check_delay': 3600, 'seed': seed, 'idx': len(out)})
+    out.append({'arrival': 'idle', 'how': 'INT', 'check_delay': 3600, 'seed': seed, 'idx': len(out)})
+    out.append({'arrival': 'idle', 'how': 'QUIT', 'check_delay': 600, 'seed': seed, 'idx': len(out)})
     out.append({'arrival': 'early-startup', 'how': 'TERM', 'seed': seed, 'idx': len(out)})
     out.append({'arrival': 'early-startup', 'how': 'INT', 'seed': seed, 'idx': len(out)})
     out.append({'arrival': 'early-startup', 'how': 'TERM', 'early_delay': 0.02, 'seed': seed, 'idx': len(out)})
@@ -100,6 +104,7 @@ def build(rnd, spec):
             'replace': rnd.random() < .4 or bool(spec.get('replace')),
             'reuse_unix': rnd.random() < .4 or bool(spec.get('replace')),
             'late_add': (rnd.random() < .35 or bool(spec.get('late_add'))) and arrival in ('idle',),
+            'check_delay': spec.get('check_delay', 0.5),
             'pidfile': spec.get('pidfile') or rnd.choice(['none', 'config', 'cli']) if not spec.get('prepid') else 'config'}
 
 
@@ -107,7 +112,7 @@ def ini_for(d, conf):
     extra = 'warmup_delay = %d\n' % conf['global_warmup']
     if conf['pidfile'] == 'config':
         extra += 'pidfile = @DIR@/circus.pid\n'
-    txt = d.header(check_delay=0.5, extra=extra)
+    txt = d.header(check_delay=conf.get('check_delay', 0.5), extra=extra)
     for w in conf['watchers']:
         spec = dict(KINDS[w['kind']])
         spec['log'] = '@LOG@'
@@ -136,9 +141,12 @@ def run_case(spec):
     if spec.get('random'):
         spec = dict(spec, arrival=rnd.choice(ARRIVALS), how=rnd.choice(METHODS),
                     prepid=rnd.choice([None] * 6 + ['live', 'dead', 'empty', 'garbage', 'negative', 'zero', 'own']),
-                    second=rnd.choice([None, None, None, 'TERM', 'INT', 'QUIT']))
+                    second=rnd.choice([None, None, None, 'TERM', 'INT', 'QUIT']),
+                    check_delay=rnd.choice([0.5, 0.5, 0.5, 3600]))
         if spec['prepid']:
             spec['arrival'] = 'idle'
+        if spec['arrival'] != 'idle':
+            spec['check_delay'] = 0.5
         if spec['arrival'] == 'early-startup' and spec['how'] == 'quit':
             spec['how'] = 'TERM'          # no endpoint to send a request to yet
     conf = build(rnd, spec)
